@@ -266,6 +266,8 @@ class Models:
         R(r"^<alloc::rc::Rc<T, A> as core::ops::deref::Deref>::deref$", lambda ci: ("ref", ("val", ("app", "rc_inner", (ci.deref(ci.args[0]),)), ()), False), "Rc::deref")
         R(r"^core::cell::RefCell::<T>::borrow_mut$", lambda ci: ("app", "borrow_mut", (ci.deref(ci.args[0]),)), "RefCell::borrow_mut (panics if already borrowed: A4)")
         R(r"^<core::cell::RefMut<'_, T> as core::ops::deref::Deref(Mut)?>::deref(_mut)?$", lambda ci: ("ref", ("val", ("app", "refmut_inner", (ci.deref(ci.args[0]),)), ()), True), "RefMut::deref_mut")
+        R(r"^std::sync::lazy_lock::LazyLock::<T, F>::new$|^core::cell::lazy::LazyCell::<T, F>::new$", lambda ci: ("app", "lazylock", (ci.args[0],)), "LazyLock::new(f): the value f() produces, computed once on first use")
+        R(r"^<std::sync::lazy_lock::LazyLock<T, F> as core::ops::deref::Deref>::deref$|^std::sync::lazy_lock::LazyLock::<T, F>::force$", m_lazylock_deref, "LazyLock deref / force: the value produced once by the initialiser")
         R(r"^lazy_static::lazy::Lazy::<T>::get$", lambda ci: ("ref", ("val", ("app", "lazy", (ci.args[1],)), ()), False), "lazy_static: the value produced once by the initialiser")
         R(r"^regex::regex::bytes::Regex::new$", lambda ci: ok(ci.ev, ("app", "regex", (ci.args[0],))), "Regex::new (literal validated by A6)")
         R(r"^regex::regex::bytes::Regex::captures$", lambda ci: ("app", "captures", (ci.deref(ci.args[0]), ci.deref(ci.args[1]))), "Regex::captures: Some(caps) iff the regex matches")
@@ -1202,6 +1204,16 @@ def m_int_helper(ci):
     if op == "pow" and len(args) == 2:
         ci.st.emit(("assert_undecided", "Overflow(Mul)", ("app", "MulOvf", (("app", "pow", args), mk_int(1, ty))), ci.w))
     return ("app", op, args)
+
+
+def m_lazylock_deref(ci):
+    x = ci.args[0]
+    for _ in range(3):
+        if x[0] == "ref":
+            x = ci.ev.load(ci.st, x[1])
+    if x[0] == "app" and x[1] == "lazylock":
+        return ("ref", ("val", ("app", "lazy", (x[2][0],)), ()), False)
+    return None
 
 
 def m_fold(ci):
